@@ -736,7 +736,7 @@ pub fn run_positions(cfg: &Cfg, rep: &mut Report, model: &mut Model, family: &st
     }
   }
   let judged = rows.len();
-  super::judge_written_out_with(rep, model, family, rows, &|c: &Case| !c.text.contains("count(") && !c.text.contains("not(") && !c.text.contains("**"));
+  super::judge_written_out_with(rep, model, family, rows, &|c: &Case| !c.text.contains("count(") && !c.text.contains("not("));
   // ---- the tie has no hole: every node kind that can hold an expression lay on a path to the name
   match ast_node_kinds() {
     Some(kinds) => {
